@@ -20,7 +20,7 @@ CHECKS = {
     "C01": dict(
         engine="S", category="model_checking", design="3/C01",
         technique="explicit-state bounded exhaustive exploration of the real runtime (all pattern lists x all call histories) in lock-step with a reference model",
-        text="Every pattern list over all 8 predicates of a 3-value domain (length <= 2 quick / <= 3 thorough), six clause forms, five contexts, strict and partial, and every call history up to depth 3 (quick) / 5 (thorough) is executed on a fresh real mock; each step's answering pattern, panic class and the match counters of every pattern of every method are compared with the model. Added families: pattern lists of 21-48 clauses spread over several methods (for every k the k-th pattern is the first that accepts), n patterns composed as one real n-tuple for every arity 2..16, and same-named generic methods of two traits in one module. Every clause list is composed through unimock's own tuple impls. Both tiers also run on the no_std+spin-lock build.",
+        text="Every pattern list over all 8 predicates of a 3-value domain (length <= 2 quick / <= 3 thorough), six clause forms, five contexts, strict and partial, and every call history up to depth 3 (quick) / 5 (thorough) is executed on a fresh real mock; each step's answering pattern, panic class and the match counters of every pattern of every method are compared with the model. Added families: pattern lists of 21-48 clauses spread over several methods (for every k the k-th pattern is the first that accepts), n patterns composed as one real n-tuple for every arity 2..16, and same-named generic methods of two traits in one module. Every clause list is composed through unimock's own tuple impls. Both tiers also run on the no_std+spin-lock build. A hand-written matcher that reports its mismatch through the reporter is placed at every position of every pattern list of length <= 2 (strict and partial): it never influences what later patterns decide.",
         note=S_NOTE),
     "C02": dict(
         engine="S", category="model_checking", design="3/C02",
@@ -30,12 +30,12 @@ CHECKS = {
     "C03": dict(
         engine="S", category="model_checking", design="3/C03",
         technique="bounded exhaustive exploration of clause sets x call histories on the real runtime; verdict line multiset compared with a reference model",
-        text="Clause sets of <= 2 (quick) / <= 3 (thorough) patterns in every quantifier form (open, some_call, exact, at-least, exact-then-open/exact/at-least, ordered counts), all histories up to depth 4 / 6; verification by drop after every history and by verify() and Termination::report() once per distinct final state. The multiset of failure lines (pattern name, kind, bound, actual) must equal the model's; silence iff no expectation is unmet. Histories with calls beyond the end of an exactly quantified chain are judged too (their response is unspecified, their count is not); forms include exactly-0, some_call + at_least, answers that park a clone of the mock in the instance; report() is also taken after no_verify_in_drop(). Both tiers also run on the no_std+spin-lock build. Ordered clauses appear with exact counts 0..2, with the implicit once and as chains ending in an unquantified tail.",
+        text="Clause sets of <= 2 (quick) / <= 3 (thorough) patterns in every quantifier form (open, some_call, exact, at-least, exact-then-open/exact/at-least, ordered counts), all histories up to depth 4 / 6; verification by drop after every history and by verify() and Termination::report() once per distinct final state. The multiset of failure lines (pattern name, kind, bound, actual) must equal the model's; silence iff no expectation is unmet. Histories with calls beyond the end of an exactly quantified chain are judged too (their response is unspecified, their count is not); forms include exactly-0, some_call + at_least, answers that park a clone of the mock in the instance; report() is also taken after no_verify_in_drop(). Both tiers also run on the no_std+spin-lock build. Ordered clauses appear with exact counts 0..2, with the implicit once and as chains ending in an unquantified tail. Expectations on methods with a default body / real function / both, and on a trait with the flattened mock api (lines name the method).",
         note=S_NOTE + " Line order across methods is unspecified and not compared."),
     "C04": dict(
         engine="S", category="model_checking", design="3/C04",
         technique="explicit-state search over accepted call prefixes of every ordered clause sequence on the real runtime, lock-step with a reference model",
-        text="Every sequence of <= 2 (quick) / <= 3 (thorough) ordered clauses over two methods, three predicates, counts 0..3 and response chains inside a slot range, with an unordered clause (open or exactly quantified) at every position; every model-accepted prefix is extended by every possible call; slot ranges after assembly, the response of each accepted call, the panic class and named pattern of each deviating call, the global index and the final verdict are compared. Added families: the disjunctive matcher form (a later alternative must be accepted in order), deviations on methods with a real function in strict and partial mocks, n ordered clauses composed as one real n-tuple for every arity 2..16. Both tiers also run on the no_std+spin-lock build.",
+        text="Every sequence of <= 2 (quick) / <= 3 (thorough) ordered clauses over two methods, three predicates, counts 0..3 and response chains inside a slot range, with an unordered clause (open or exactly quantified) at every position; every model-accepted prefix is extended by every possible call; slot ranges after assembly, the response of each accepted call, the panic class and named pattern of each deviating call, the global index and the final verdict are compared. Added families: the disjunctive matcher form (a later alternative must be accepted in order), deviations on methods with a real function in strict and partial mocks, n ordered clauses composed as one real n-tuple for every arity 2..16. Both tiers also run on the no_std+spin-lock build. Cells with arguments whose Debug calls back into the mock: a fully declared sequence made as declared is consumed by the caller's calls only.",
         note=S_NOTE + " Behaviour after the first deviating call is unspecified and not explored."),
     "C07": dict(
         engine="S", category="model_checking", design="3/C07",
@@ -65,7 +65,7 @@ CHECKS = {
     "C13": dict(
         engine="S+T", category="model_checking", design="3/C13",
         technique="bounded exhaustive enumeration of lending operation sequences on the real runtime with instrumented payloads; stateless model checking of concurrent make_ref under a controlled scheduler",
-        text="All sequences of length 4 (quick) / 6 (thorough) over {make_ref<P1>, make_ref<P2>, borrowed returns() call, answer using make_ref, provided method lending through the delegation helper, make_mut<P1>, answer using make_mut, &mut provided method} x {original, clone}: after every step every held reference still reads its own intact payload, addresses are pairwise distinct, only what an exclusive operation on the same instance releases has been dropped; at the end everything is dropped exactly once, clone-owned values with the clone. Zero-sized lent values with drop glue. Long chains of 1 024 - 20 000 values lent and released on 64 KiB - 2 MiB stacks, in child processes. Concurrent: 2-3 threads x 1-3 make_ref on one shared &Unimock, all schedules at the operations of the instrumented OnceCell within the bound. Thorough: length 7. Both tiers also run on the no_std+spin-lock build.",
+        text="All sequences of length 4 (quick) / 6 (thorough) over {make_ref<P1>, make_ref<P2>, borrowed returns() call, answer using make_ref, provided method lending through the delegation helper, make_mut<P1>, answer using make_mut, &mut provided method} x {original, clone}: after every step every held reference still reads its own intact payload, addresses are pairwise distinct, only what an exclusive operation on the same instance releases has been dropped; at the end everything is dropped exactly once, clone-owned values with the clone. Zero-sized lent values with drop glue. Long chains of 1 024 - 20 000 values lent and released on 64 KiB - 2 MiB stacks, in child processes. Concurrent: 2-3 threads x 1-3 make_ref on one shared &Unimock, all schedules at the operations of the instrumented OnceCell within the bound. Thorough: length 7. Both tiers also run on the no_std+spin-lock build. Instances also end inside a by-value provided method (its body sees nothing dropped but what exclusive operations released) and through Termination::report().",
         note="Trusted: once_cell's synchronisation; the harness keeps raw pointers only to values the property says are still lent. " + T_NOTE),
     "C18": dict(
         engine="S", category="model_checking", design="3/C18",
@@ -80,7 +80,7 @@ CHECKS = {
     "C06": dict(
         engine="G", category="exploration", design="3/C06",
         technique="exhaustive enumeration of a catalogue-driven grammar of matching! invocations, each evaluated on its whole finite argument domain against a native Rust match",
-        text="Sub-patterns of 11 argument types (literals, ranges, wildcards, bindings, @-bindings, or-patterns, tuple/struct/enum/Option patterns, slice patterns with rest, string literals against &str/String/AsRef<str> newtype, bare unit variants, eq!/ne!), 1-3 arguments, simple and disjunctive form (2-4 alternatives, every pair over a sub-pattern set with eq!/ne! in all positions), guards incl. || combined with eq!/ne!, mixed literal kinds per position. Every argument tuple of the domain in three modes (unordered strict, unordered with fallback, ordered) must be accepted iff the emitted native match accepts it. Also: guards that read state outside the arguments (arity 0..2, evaluated per call), disjunctions whose alternatives differ only inside a struct / enum / tuple pattern or in their path, three and four alternatives as documented. Bindings named like identifiers of the expansion (a<i>, l<k>, m<i>, reporter, mismatch) next to eq!/ne! and string literals must compile and decide like the native match; eq!/ne! mixed at one position across alternatives.",
+        text="Sub-patterns of 11 argument types (literals, ranges, wildcards, bindings, @-bindings, or-patterns, tuple/struct/enum/Option patterns, slice patterns with rest, string literals against &str/String/AsRef<str> newtype, bare unit variants, eq!/ne!), 1-3 arguments, simple and disjunctive form (2-4 alternatives, every pair over a sub-pattern set with eq!/ne! in all positions), guards incl. || combined with eq!/ne!, mixed literal kinds per position. Every argument tuple of the domain in three modes (unordered strict, unordered with fallback, ordered) must be accepted iff the emitted native match accepts it. Also: guards that read state outside the arguments (arity 0..2, evaluated per call), disjunctions whose alternatives differ only inside a struct / enum / tuple pattern or in their path, three and four alternatives as documented. Bindings named like identifiers of the expansion (a<i>, l<k>, m<i>, reporter, mismatch) next to eq!/ne! and string literals must compile and decide like the native match; eq!/ne! mixed at one position across alternatives. eq!/ne! over a type with an asymmetric == and over a type that is PartialEq<str> and AsRef<str> with different equalities.",
         note=G_NOTE + " Three genuine defects found by this check were fixed in /repo (guard precedence, three alternatives, bindings capturing temporaries of the expansion)."),
     "C11": dict(
         engine="F", category="fault_enumeration", design="3/C11",
@@ -90,17 +90,17 @@ CHECKS = {
     "C14": dict(
         engine="G+S", category="exploration", design="3/C14",
         technique="exhaustive enumeration of tuple shapes / offending-clause positions (generated self-checking programs) plus an exhaustive sweep of builder call chains against rustc",
-        text="Order: every flat tuple arity 2..16, every nesting tree with <= 5 (quick) / 7 (thorough) leaves, unit elements at every position, every arity nested on either side: slot ranges after assembly are consecutive in declaration order, exactly the left-to-right call order is accepted, the leftmost overlapping unordered clause answers (staggered overlaps check every position), ordered clauses interleaved with exactly quantified unordered ones and ordered clauses with exact counts 0..2 keep their sequence, final verification is silent. Rejection at construction: ordered+unordered clauses of one method at every pair of positions (quick: all pairs for arities 2,3,16; thorough: every arity), both orders, also with an ordered count of 0 or 2; empty stub at every position, also after an earlier mention of the method; single-use returns in the feature set without mutex, alone and inside response chains. Compile time: every valid builder prefix up to length 3 / 5 extended by every builder method and by use-as-clause must be accepted / rejected by rustc exactly as the reference automaton says; 1- and 17-tuples rejected. The construction cells are also run in no_std + spin-lock, where each of them must construct.",
+        text="Order: every flat tuple arity 2..16, every nesting tree with <= 5 (quick) / 7 (thorough) leaves, unit elements at every position, every arity nested on either side: slot ranges after assembly are consecutive in declaration order, exactly the left-to-right call order is accepted, the leftmost overlapping unordered clause answers (staggered overlaps check every position), ordered clauses interleaved with exactly quantified unordered ones and ordered clauses with exact counts 0..2 keep their sequence, final verification is silent. Rejection at construction: ordered+unordered clauses of one method at every pair of positions (quick: all pairs for arities 2,3,16; thorough: every arity), both orders, also with an ordered count of 0 or 2; empty stub at every position, also after an earlier mention of the method; single-use returns in the feature set without mutex, alone and inside response chains. Compile time: every valid builder prefix up to length 3 / 5 extended by every builder method and by use-as-clause must be accepted / rejected by rustc exactly as the reference automaton says; 1- and 17-tuples rejected. The construction cells are also run in no_std + spin-lock, where each of them must construct. Composite single-use returns in the no-mutex cells are refused at construction or delivered exactly as configured; nested tuples with 22-48 leaves keep staggered overlapping clauses of two methods in declaration order.",
         note=G_NOTE),
     "C15": dict(
         engine="G", category="exploration", design="3/C15",
         technique="exhaustive enumeration of a bounded grammar of provided-method shapes; generated programs mix direct and delegated calls and compare with the generator's evaluator",
-        text="Receiver of the provided method x default body calling 0..3 required methods (plus a by-value required call, plus a lent reference) x signature {(u8), (u8,&str,&mut u32)} x {no clause, applies_default_impl()} x {strict, partial} x {unordered exact counts, one global ordered sequence}. History: direct call, delegated call, direct call, delegated call. The body runs once per call with the caller's arguments, results equal the body evaluated over the mock's answers, all required calls are counted on the shared state (H3), the ordered index advances as for direct calls, final verification is silent. Also: verification by verify() and with an unmet expectation, a by-value receiver travelling through the default body, associated consts / types read by the default body (attribute overrides), a provided method that also has an unmock function. Also: associated types in the signatures of required methods the body calls (Self::T and <Self as Tr>::T), and a trait mocked through mirror= (placeholder bodies; unit and non-unit provided methods, with and without applies_default_impl()).",
+        text="Receiver of the provided method x default body calling 0..3 required methods (plus a by-value required call, plus a lent reference) x signature {(u8), (u8,&str,&mut u32)} x {no clause, applies_default_impl()} x {strict, partial} x {unordered exact counts, one global ordered sequence}. History: direct call, delegated call, direct call, delegated call. The body runs once per call with the caller's arguments, results equal the body evaluated over the mock's answers, all required calls are counted on the shared state (H3), the ordered index advances as for direct calls, final verification is silent. Also: verification by verify() and with an unmet expectation, a by-value receiver travelling through the default body, associated consts / types read by the default body (attribute overrides), a provided method that also has an unmock function. Also: associated types in the signatures of required methods the body calls (Self::T and <Self as Tr>::T), and a trait mocked through mirror= (placeholder bodies; unit and non-unit provided methods, with and without applies_default_impl()). After a delegated call the original still refuses to verify exactly while user-made clones are alive.",
         note=G_NOTE + " Rc/Arc receivers are driven with the caller keeping a second handle."),
     "C16": dict(
         engine="G", category="exploration", design="3/C16",
         technique="exhaustive enumeration of a bounded grammar of unmock_with configurations; generated programs log the real function's invocations",
-        text="Receiver x parameter lists x unmock_with form {path, path(self,..), reordered, params only, _} x (methods in trait, position, skipped static fn in front) x {sync, async} x {strict + applies_unmocked, partial fall-through, partial mentioned-but-unmatched} x {required, provided with default body}; recursion depth 0..3 through the mock. The registered function runs exactly once per level with the mock and the caller's arguments in order, result unchanged, re-entrant calls hit the shared counters; `_` panics naming the method; unmentioned provided methods prefer the default body; a provided sibling method in the trait changes nothing for a required method; the error of an unmock without function is about its own call also after another recorded error. Also ordered series whose segments resolve to the real function (n_times(k).then() with an unquantified tail; a value first, then the real function) with recursion through the same mock.",
+        text="Receiver x parameter lists x unmock_with form {path, path(self,..), reordered, params only, _} x (methods in trait, position, skipped static fn in front) x {sync, async} x {strict + applies_unmocked, partial fall-through, partial mentioned-but-unmatched} x {required, provided with default body}; recursion depth 0..3 through the mock. The registered function runs exactly once per level with the mock and the caller's arguments in order, result unchanged, re-entrant calls hit the shared counters; `_` panics naming the method; unmentioned provided methods prefer the default body; a provided sibling method in the trait changes nothing for a required method; the error of an unmock without function is about its own call also after another recorded error. Also ordered series whose segments resolve to the real function (n_times(k).then() with an unquantified tail; a value first, then the real function) with recursion through the same mock. unmock_with=[f(self, <permuted parameters of one type>)] passes the listed order; an unquantified applies_unmocked() pattern in front of a broader pattern carves its exception out in strict and partial mocks.",
         note=G_NOTE + " The genuine defect found here (&mut self / Pin receivers never unmocked) was fixed in /repo."),
     "C17": dict(
         engine="G", category="exploration", design="3/C17",
@@ -110,12 +110,12 @@ CHECKS = {
     "C19": dict(
         engine="G", category="exploration", design="3/C19",
         technique="exhaustive enumeration of parameter-type lists x error kinds and of sub-pattern tuples x failing argument tuples; generated programs compare exact message texts / parsed mismatch entries",
-        text="(A) parameter lists over 12 kinds (incl. &, &mut, &&, slices, non-Debug by value and reference, Option<&T>, generics with/without Debug) of arity 1-4 x 9 mock-induced error kinds: exact message predicted (call rendered with arguments in order, '?' without Debug, path only for missing real/default implementation). Post-selection failures (explicit panic, exhausted single-use value, no output) raised by the second pattern of a method name that pattern (by index, or by source text and line). (B) every tuple of 2-3 sub-patterns over {literal, _, or-literals, eq!, ne!} and over Option<u8> sub-patterns incl. refutable bare identifiers x every failing argument tuple of the domain, unordered (1 and 2 patterns), ordered and ordered with a multi-line invocation: the report lists exactly the rejected positions with kind and actual value; ordered messages name the pattern by source text and file:line. Typed positions also cover &str with string-literal or-patterns, char with ranges, and a type whose Debug hides the field == reads (under eq!/ne!): the listed value is the Debug rendering.",
+        text="(A) parameter lists over 12 kinds (incl. &, &mut, &&, slices, non-Debug by value and reference, Option<&T>, generics with/without Debug) of arity 1-4 x 9 mock-induced error kinds: exact message predicted (call rendered with arguments in order, '?' without Debug, path only for missing real/default implementation). Post-selection failures (explicit panic, exhausted single-use value, no output) raised by the second pattern of a method name that pattern (by index, or by source text and line). (B) every tuple of 2-3 sub-patterns over {literal, _, or-literals, eq!, ne!} and over Option<u8> sub-patterns incl. refutable bare identifiers x every failing argument tuple of the domain, unordered (1 and 2 patterns), ordered and ordered with a multi-line invocation: the report lists exactly the rejected positions with kind and actual value; ordered messages name the pattern by source text and file:line. Typed positions also cover &str with string-literal or-patterns, char with ranges, and a type whose Debug hides the field == reads (under eq!/ne!): the listed value is the Debug rendering. Wrong-order messages name the pattern in line for every assignment of {first ordered, second ordered, unordered stub} to three methods; with three unordered patterns every entry carries the index of its own pattern.",
         note=G_NOTE + " Built without pretty-print. Messages under concurrency are covered by C10 (each panic renders its own call; sequential-candidate oracle)."),
     "C20": dict(
         engine="S-style", category="exploration", design="3/C20",
         technique="exhaustive enumeration of environment-answer scripts replayed by the mock and by a plain struct implementing the upstream trait (differential), plus the complete entry-point wiring table",
-        text="Wiring: all 83 methods of all mirrored traits (core fmt/hash, std error/io, tokio io, futures io, embedded-hal delay/digital/i2c/pwm/spi): a mock with a logging clause on every method; each method called through the upstream trait logs exactly itself. Composition: every script of length <= 3 (quick) / 4 (thorough) over chunk sizes {0,1,2,3}, payload chunks, Interrupted, Other through write_all/write_vectored/write!/flush, read_exact/read_to_end/read_to_string/read_vectored, read_until/read_line, rewind/stream_position, Hasher::write_*, format!, DelayNs::delay_us/ms, set_state, toggle, I2c read/write/write_read, SetDutyCycle::*, SpiDevice::*, tokio/futures vectored polls, strict and partial: identical results, buffers and required-method call sequences (thorough: scripts <= 5). Also: the drivers on a clone living on another thread with report() on the original; provided methods that are mocked themselves (matching input: configured response; unmatched input on a strict mock: loud failure; no required-method call either way); 2 000 / 12 000-chunk scripts through read_until on 64 / 256 KiB stacks (child process); Debug and Display of self inside a delegated default body of a user trait; no_verify_in_drop + provided method + verify(); Error::source lending a derived mock. Clause scripts written as one flat tuple of every arity 2..16 and as nested tuples, and a counted any-order clause at every position among ordered steps, driven through write_all.",
+        text="Wiring: all 83 methods of all mirrored traits (core fmt/hash, std error/io, tokio io, futures io, embedded-hal delay/digital/i2c/pwm/spi): a mock with a logging clause on every method; each method called through the upstream trait logs exactly itself. Composition: every script of length <= 3 (quick) / 4 (thorough) over chunk sizes {0,1,2,3}, payload chunks, Interrupted, Other through write_all/write_vectored/write!/flush, read_exact/read_to_end/read_to_string/read_vectored, read_until/read_line, rewind/stream_position, Hasher::write_*, format!, DelayNs::delay_us/ms, set_state, toggle, I2c read/write/write_read, SetDutyCycle::*, SpiDevice::*, tokio/futures vectored polls, strict and partial: identical results, buffers and required-method call sequences (thorough: scripts <= 5). Also: the drivers on a clone living on another thread with report() on the original; provided methods that are mocked themselves (matching input: configured response; unmatched input on a strict mock: loud failure; no required-method call either way); 2 000 / 12 000-chunk scripts through read_until on 64 / 256 KiB stacks (child process); Debug and Display of self inside a delegated default body of a user trait; no_verify_in_drop + provided method + verify(); Error::source lending a derived mock. Clause scripts written as one flat tuple of every arity 2..16 and as nested tuples, and a counted any-order clause at every position among ordered steps, driven through write_all. A scripted tail the provided method never asks for leaves an unmet expectation (as the plain struct keeps an unconsumed script entry).",
         note="Differential oracle = plain struct sharing the script function with the mock's answers; features mock-core, mock-std, mock-tokio-1, mock-futures-io-0-3, mock-embedded-hal-1."),
 }
 
